@@ -318,6 +318,18 @@ def _destination_typing(ctx, rep, tier):
             rep.check(all(passes), "C14.h", q, f"{'/'.join(classes)}: operands inherit the destination", f"{classes}: an operand is rendered without the destination although it has the result's type (type errors in operands go unnoticed)")
     if seen < 5:
         raise AnalysisError(f"C14.h: only {seen} recursive arms found in _generate_code_for_int_expr")
+    # the same clause where the expression tree is built (seed C18-14): the operands of a comparison are parsed without the destination of the whole
+    # expression - with it, an enum constant of the destination becomes a legal left operand of `<` against a number, and the constant folder compares str with int
+    pq = "ParseCtx._parse_math_expr"
+    pf = model.func(pq)
+    arms = [n for n in ast.walk(pf) if isinstance(n, ast.If) and ast.unparse(n.test) in ("expr.data == 'comp_expr'", "'comp_expr' == expr.data")]
+    if len(arms) != 1:
+        raise AnalysisError(f"C14.h: comparison arm of {pq} not found")
+    calls = [c for st in arms[0].body for c in ast.walk(st) if isinstance(c, ast.Call) and ast.unparse(c.func) in ("self._parse_integer_expr", "self._parse_math_expr")]
+    hands_on = [c for c in calls if any(isinstance(a, ast.Name) and a.id == "into_storage" for a in c.args) or any(isinstance(k.value, ast.Name) and k.value.id == "into_storage" for k in c.keywords)]
+    rep.check(len(calls) >= 2 and not hands_on, "C14.h", pq, "comparison: operands parsed without the destination of the whole expression",
+              f"an operand of a comparison is parsed with the destination of the whole expression (`{ast.unparse(hands_on[0])[:80] if hands_on else '?'}`): an enum constant of the destination "
+              "is accepted next to `<` and a number, and the compile-time evaluation of `'B' < 1` ends in a TypeError (`e = [B < 1];`)")
     top = [st for st in strip_doc(fn.body) if isinstance(st, ast.If) and ast.unparse(st.test) == "out_expr is not None"]
     rep.check(len(top) == 1 and "intexpr.result_type() != out_expr.type" in ast.unparse(top[0]) and any(isinstance(x, ast.Raise) for x in ast.walk(top[0])), "C14.h", q,
               "the result type of every rendered (sub)expression with a destination is compared with it (diagnosed error)", "destination type check changed")
@@ -449,3 +461,15 @@ _run_n14 = run
 def run(ctx, rep, tier):
     _run_n14(ctx, rep, tier)
     _expression_tree_mirrors_parse_tree(ctx, rep, tier)
+
+
+_run_r6 = run
+
+
+def run(ctx, rep, tier):
+    _run_r6(ctx, rep, tier)
+    from .shared import delegate, delegate_fn
+    from . import c11
+    delegate_fn(ctx, rep, tier, c11._values_and_names_in_c, ("C11.n",), "C14.o", "integer constants are emitted with the type C gives a decimal constant of that value (signed; suffixed from 2^63): a spelling "
+                "that retypes them (hex / octal: unsigned int from 2^31) changes the arithmetic around them", prop="C11")
+    delegate(ctx, rep, tier, "C03", ("C03.g",), "C14.p", "s[i] evaluates to 0 outside 0 <= i < length: both bounds are tested for every index expression that can be negative")
